@@ -636,6 +636,27 @@ var panicTable = map[string]string{
 }
 
 func runC18_6(c *core.Ctx) {
+	// which module functions are mentioned anywhere in the module (outside their own declaration)?
+	mentioned := map[types.Object]bool{}
+	for _, pk := range c.P.Pkgs {
+		for _, file := range pk.Syntax {
+			for _, decl := range file.Decls {
+				fd, _ := decl.(*ast.FuncDecl)
+				var self types.Object
+				if fd != nil {
+					self = pk.TypesInfo.Defs[fd.Name]
+				}
+				ast.Inspect(decl, func(n ast.Node) bool {
+					if id, ok := n.(*ast.Ident); ok {
+						if o, ok := pk.TypesInfo.Uses[id].(*types.Func); ok && o != self {
+							mentioned[o.Origin()] = true
+						}
+					}
+					return true
+				})
+			}
+		}
+	}
 	allFuncs(c, func(f *fn) {
 		if strings.HasSuffix(f.Pkg.PkgPath, "/pkg/logging") {
 			return
@@ -645,6 +666,11 @@ func runC18_6(c *core.Ctx) {
 				continue
 			}
 			why, ok := panicTable[f.Name]
+			if !ok && !mentioned[f.Obj.Origin()] && !core.InBaseline(f.Obj) {
+				// a new function nobody in the library calls: its argument check cannot be reached from a connection's I/O path
+				c.Ok(f.Name, "explicit panic/fatal", call.Pos(), "new function that the library itself never calls")
+				continue
+			}
 			c.Check(ok, f.Name, "explicit panic/fatal", call.Pos(), "documented contract check: "+why,
 				"a new explicit panic/fatal exit was added to library code: a condition on one connection (or a bad argument) now brings the whole process down")
 		}
